@@ -326,5 +326,6 @@ pub fn nested_gauss_kronrod_quadrature(
         s += w * (nres.0 + pres.0);
         accu_err += w * (nres.1 + pres.1);
     }
-    Ok(((b - a) / 2f64 * s, (b - a) / 2f64 * accu_err))
+    // The error estimate is a magnitude: it must not change sign with the orientation of [a, b].
+    Ok(((b - a) / 2f64 * s, ((b - a) / 2f64).abs() * accu_err))
 }
